@@ -93,3 +93,12 @@ check("C10",
       "fresh connections and compared with the snapshots; mismatches get a second judgement with the known deviation.",
       TB + "After a failing source only the backup is asserted; a raising add_relation ends the history. Known finding F4_ReplaceKeepsStaleLinks.",
       "TLA+ state machine (MC_DB10 on GffDB) + TLC invariants/action properties over all short histories + spec-generated behaviours replayed step by step on real file databases")
+
+check("C19",
+      "MC_Files models the file system as path -> database content | Absent with create_db(path, source, force, merge_strategy), FeatureDB(path) and 14 read-style call "
+      "patterns as actions; TLC checks the action properties ReadsDontWrite ([][isRead => files' = files]), NoClobber and ForceFresh over all histories to depth 4/5 and "
+      "prints every behaviour of length 3. Each behaviour runs on real files: sqlite3 statement trace on the handle's connection during reads (only SELECT/PRAGMA), "
+      "total_changes, open-transaction flag, and the logical content (all six tables through a fresh connection) plus sha256 of BOTH files before/after every call. "
+      "Random read sequences run on databases built from the repository's data files.",
+      TB + "Exceptions raised by a read call itself are not judged here.",
+      "TLA+ state machine (MC_Files) + TLC action properties + spec-generated behaviours replayed on real files with SQL statement tracing and before/after snapshots")
